@@ -618,11 +618,46 @@ def r17f(ctx, run):
         run.check(v == Term("f", field), fn.site(), "%s returns self.%s" % (q, field), q, "accessor", fn.file, fn.ln, "%s returns %r, not self.%s" % (q, v, field))
 
 
+def r17g(ctx, run):
+    """only optionals of POINTERS are pointer-sized (no tag): the predicate that picks the representation (Ty::is_non_zero, consulted by the Optional arm
+    of calc_single and by every consumer of optionals) is evaluated from source for every kind - it holds for pointers and raw pointers (also behind
+    distinct / variant wrappers) and for nothing else; in particular not for function types, strings, slices or integers"""
+    import c07
+    from absint import Variant, Term, Obj, Panic, CannotEstablish
+    V = Variant
+    fn = ctx.syn.fn("Ty::is_non_zero", "hir/src/common/ty.rs")
+    QI = c07.make_ty_interp(ctx)
+    i32 = V("Ty::IInt", {"0": 32})
+    ptr = V("Ty::Pointer", {"mutable": False, "sub_ty": i32})
+    fnp = V("Ty::FunctionPointer", {"param_tys": [], "return_ty": V("Ty::Void")})
+    cfn = V("Ty::ConcreteFunction", {"param_tys": [], "return_ty": V("Ty::Void"), "fn_loc": Term("loc")})
+    kinds = {
+        "^i32": (ptr, True), "^mut i32": (V("Ty::Pointer", {"mutable": True, "sub_ty": i32}), True), "rawptr": (V("Ty::RawPtr", {"mutable": False}), True),
+        "distinct ^i32": (V("Ty::Distinct", {"uid": 1, "sub_ty": ptr}), True),
+        "i32": (i32, False), "usize": (V("Ty::UInt", {"0": 255}), False), "bool": (V("Ty::Bool"), False), "char": (V("Ty::Char"), False), "f64": (V("Ty::Float", {"0": 64}), False),
+        "str": (V("Ty::String"), False), "[]i32": (V("Ty::Slice", {"sub_ty": i32}), False), "rawslice": (V("Ty::RawSlice"), False), "[2]i32": (V("Ty::ConcreteArray", {"size": 2, "sub_ty": i32}), False),
+        "any": (V("Ty::Any"), False), "type": (V("Ty::Type"), False), "void": (V("Ty::Void"), False), "nil": (V("Ty::Nil"), False),
+        "function pointer": (fnp, False), "function": (cfn, False), "distinct function pointer": (V("Ty::Distinct", {"uid": 2, "sub_ty": fnp}), False),
+        "?^i32": (V("Ty::Optional", {"sub_ty": ptr}), False), "struct": (V("Ty::ConcreteStruct", {"uid": 3, "members": [Obj("MemberTy", name=Term("a"), ty=ptr)]}), False),
+        "enum": (V("Ty::Enum", {"uid": 4, "variants": []}), False), "str!^i32": (V("Ty::ErrorUnion", {"error_ty": V("Ty::String"), "payload_ty": ptr}), False),
+    }
+    for name, (ty, want) in kinds.items():
+        it = QI()
+        try:
+            got = it.inline(fn, [], recv=ty)
+        except (Panic, CannotEstablish) as c:
+            got = "cannot establish: %s" % getattr(c, "what", c)
+        run.check(got is want, fn.site(), "is_non_zero(%s) = %s" % (name, got), "Ty::is_non_zero", "non-zero:" + name, fn.file, fn.ln,
+                  "is_non_zero(%s) is %s: %s" % (name, got, "an optional of this type would lose its tag byte and become pointer-sized; only optionals of pointers may"
+                                                  if want is False else "an optional of a pointer is pointer-sized (nil = the null pointer); it would get a tag"))
+
+
 def rules(ctx):
     return [
         Rule("R17.a", "scalar and pointer-like kinds: size/align table for pointer widths 64 and 32; align a power of two <= 8", 70, r17a),
         Rule("R17.b", "distinct / enum variant = underlying layout; array = length * element stride, element alignment", 4, r17b),
         Rule("R17.c", "tagged unions keep a one-byte tag after the largest payload; optional pointer has no tag; is_non_zero only for pointers", 25, r17c),
+        Rule("R17.g", "only optionals of pointers are pointer-sized: Ty::is_non_zero evaluated for every kind", 20, r17g),
         Rule("R17.d", "struct fields in declaration order, each at the previous end rounded up to its alignment; size/align", 8, r17d),
         Rule("R17.e", "padding_needed_for / stride round up to the alignment (congruence domain mod 8)", 2, r17e),
         Rule("R17.f", "layout accessors read the table they name; struct/enum layouts through the absolute type", 6, r17f),
